@@ -102,7 +102,7 @@ def finish(ctx, module, out, build, audit_res, extraction):
         seen = set()
         for v in new_violations:
             sig = (v.get("call_site"), v.get("input_class"))
-            if sig in seen:
+            if sig in seen or len(seen) >= 5:
                 continue
             seen.add(sig)
             path = write_replay(prop, {"property": prop, "kind": "failing-input", **v,
